@@ -217,7 +217,7 @@ def main():
             futs.append(('twin', u, ex.submit(safe, run_verus, u, a.repo, outdir, True, 2)))
         kfut = None
         if harnesses:
-            kfut = ex.submit(safe, kanirun.run, a.repo, harnesses, pid, cfg.get('kani_timeout', 1500),
+            kfut = ex.submit(safe, kanirun.run_cached, a.repo, harnesses, pid, cfg.get('kani_timeout', 1500),
                              cfg.get('kani_jobs', 6))
         for kind, u, f in futs:
             r = f.result()
@@ -323,10 +323,15 @@ def main():
         elif r['status'] == 'fail':
             kani_checks += r.get('checks', 0)
             kani_ok += r.get('checks', 0) - len(r['failed'])
-            violations.append({'obligation': 'kani::%s::%s' % (h, hashlib.sha1(r['failed'][0]['description'].encode()).hexdigest()[:6]),
-                               'backend': 'kani', 'kind': 'kani', 'harness': h, 'message': r['failed'][0]['description'],
-                               'failed_checks': r['failed'], 'concrete_vals': r.get('concrete_vals'),
-                               'playback_test': r.get('playback_test')})
+            seen_desc = set()
+            for fc in r['failed']:
+                if fc['description'] in seen_desc:
+                    continue
+                seen_desc.add(fc['description'])
+                violations.append({'obligation': 'kani::%s::%s' % (h, hashlib.sha1(fc['description'].encode()).hexdigest()[:6]),
+                                   'backend': 'kani', 'kind': 'kani', 'harness': h, 'message': fc['description'],
+                                   'failed_checks': [fc], 'concrete_vals': r.get('concrete_vals'),
+                                   'playback_test': r.get('playback_test')})
         else:
             noverdict.append('kani harness %s: %s %s' % (h, r.get('reason'), r.get('detail', '')[:300]))
 
